@@ -36,14 +36,16 @@ class SubtreesTrie(Generic[T]):
         if init_trie:
             self.trie = init_trie
         else:
-            self.trie = datrie.Trie([chr(i) for i in range(30)])
+            self.trie = datrie.Trie(TRIE_ALPHABET)
             for path in init_map or {}:
                 self.trie[path_to_trie_key(path)] = init_map[path]
 
         if root_path is not None:
             self.root_path: str = path_to_trie_key(root_path)
+            self.root_path_len: int = len(root_path)
         else:
             self.root_path: str = ""
+            self.root_path_len: int = 0
 
     def __setitem__(self, key: Path, value: Tuple[Path, T]):
         assert is_path(key)
@@ -63,7 +65,7 @@ class SubtreesTrie(Generic[T]):
         return [
             (
                 value := self.trie[self.root_path + suffix],
-                (value[0][len(self.root_path) - 1 :], value[1]),
+                (value[0][self.root_path_len :], value[1]),
             )[-1]
             for suffix in self.trie.suffixes(self.root_path)
         ]
@@ -74,7 +76,7 @@ class SubtreesTrie(Generic[T]):
                 trie_key_to_path(chr(1) + suffix),
                 (
                     value := self.trie[self.root_path + suffix],
-                    (value[0][len(self.root_path) - 1 :], value[1]),
+                    (value[0][self.root_path_len :], value[1]),
                 )[-1],
             )
             for suffix in self.trie.suffixes(self.root_path)
@@ -85,13 +87,37 @@ class SubtreesTrie(Generic[T]):
         return SubtreesTrie(init_trie=self.trie, root_path=new_root_path)
 
 
+# datrie alphabets hold at most 255 symbols. Child indices below `_ESCAPE - 2` are
+# encoded as one character each; larger indices (nodes with very many children) as
+# the escape character followed by `_ESCAPE_DIGITS` digits to base `_ESCAPE_BASE`.
+# The encoding is prefix-free and preserves the lexicographic order of paths.
+TRIE_ALPHABET = [chr(i) for i in range(1, 256)]
+_ESCAPE = 255
+_ESCAPE_BASE = _ESCAPE - 2
+_ESCAPE_DIGITS = 3
+
+
 def path_to_trie_key(path: Path) -> str:
     # 0-bytes are ignored by the trie ==> +1
     # To represent the empty part, reserve chr(1) ==> +2
     if not path:
         return chr(1)
 
-    return chr(1) + "".join([chr(i + 2) for i in path])
+    return chr(1) + "".join([index_to_trie_key(i) for i in path])
+
+
+def index_to_trie_key(index: int) -> str:
+    if index + 2 < _ESCAPE:
+        return chr(index + 2)
+
+    rest = index + 2 - _ESCAPE
+    assert rest < _ESCAPE_BASE**_ESCAPE_DIGITS
+    digits = []
+    for _ in range(_ESCAPE_DIGITS):
+        digits.append(chr(rest % _ESCAPE_BASE + 2))
+        rest //= _ESCAPE_BASE
+
+    return chr(_ESCAPE) + "".join(reversed(digits))
 
 
 def trie_key_to_path(key: str) -> Path:
@@ -103,4 +129,19 @@ def trie_key_to_path(key: str) -> Path:
     if key == chr(1):
         return ()
 
-    return tuple([ord(c) - 2 for c in key if ord(c) != 1])
+    result = []
+    chars = [ord(c) for c in key if ord(c) != 1]
+    idx = 0
+    while idx < len(chars):
+        if chars[idx] != _ESCAPE:
+            result.append(chars[idx] - 2)
+            idx += 1
+            continue
+
+        value = 0
+        for digit in chars[idx + 1 : idx + 1 + _ESCAPE_DIGITS]:
+            value = value * _ESCAPE_BASE + digit - 2
+        result.append(value + _ESCAPE - 2)
+        idx += 1 + _ESCAPE_DIGITS
+
+    return tuple(result)
